@@ -110,7 +110,11 @@ def build(kinds, rot=0, xml=False):
             # in XML mode every second plain element carries an HTML void name: it is an ordinary paired element there
             stack.append(add(('br' if (n + rot) % 2 else 'img') if (xml and n % 2 == 0) else 'd%d' % n, pos, [], '>'))
         elif k == OPENA:
-            stack.append(add('e%d' % n, pos, [(' ', 'a', '"x\'>y"'), (' ', 'class', '"c1  c2"'), (' ', 'b', 'c'), ('\n', 'g', None)], ' >'))
+            if (n + rot) % 2:
+                spec = [(' ', 'a', '"x\'>y"'), (' ', 'class', '"c1  c2"'), (' ', 'b', 'c'), ('\n', 'g', None)]
+            else:      # value-less attribute BEFORE valued ones, unquoted value at a line end
+                spec = [(' ', 'g', None), (' ', 'a', '"x\'>y"'), ('\n', 'b', 'c'), ('\n', 'class', '"c1  c2"')]
+            stack.append(add('e%d' % n, pos, spec, ' >'))
         elif k == CLOSE:
             e = stack.pop()
             s = pos
